@@ -118,6 +118,7 @@ pub fn cases(tier: Tier) -> Vec<Case> {
             out.push(Case { program: prog.into(), bindings: bind(&["c"], &[&c]), key: format!("ternary-lazy:{}:{}", prog.replace(' ', ""), show_value(&c)), lenient_err: false });
         }
     }
+    out.extend(wide_cases());
     // depth-2 compositions (a op1 b) op2 c
     let ops2 = ["+", "-", "*", "/", "%", "<", "<=", "==", "!=", "&&", "||", "|", "&", "<<", ">>", "in", "beginWith"];
     let small = if tier == Tier::Quick { alphabet_small() } else { alphabet() };
@@ -137,6 +138,103 @@ pub fn cases(tier: Tier) -> Vec<Case> {
                     }
                 }
             }
+        }
+    }
+    out
+}
+
+/// Arity / length ladder: aggregates, AND / OR, list and map construction, membership and the
+/// string tests at every size 4..=20 and around 32, 64, 100, 256 (anything processed in chunks,
+/// unrolled, or switched to another algorithm above a size), with an ill-typed or deciding
+/// element at every position (all positions up to 17 elements, edge positions above).
+pub fn wide_cases() -> Vec<Case> {
+    let mut out = Vec::new();
+    let mut sizes: Vec<usize> = (4..=20).collect();
+    sizes.extend([31, 32, 33, 63, 64, 65, 100, 255, 256, 257]);
+    let positions = |n: usize| -> Vec<usize> {
+        if n <= 17 {
+            (0..n).collect()
+        } else {
+            let mut p: Vec<usize> = [0, 1, 3, 4, 7, 8, 15, 16, 31, 32, 63, 64, n / 2, n - 2, n - 1].iter().copied().filter(|k| *k < n).collect();
+            p.sort();
+            p.dedup();
+            p
+        }
+    };
+    let num = |i: usize| -> Value {
+        let base = ((i * 7) % 13) as i64 - 4;
+        if i % 3 == 0 {
+            d(&format!("{}.5", base.abs()))
+        } else {
+            d(&base.to_string())
+        }
+    };
+    let factor = |i: usize| -> Value { [d("2"), d("0.5"), d("-1"), d("1.5"), d("1")][i % 5].clone() };
+    for n in &sizes {
+        let n = *n;
+        for f in ["min", "max", "sum", "mul"] {
+            let vals: Vec<Value> = (0..n).map(|i| if f == "mul" { factor(i) } else { num(i) }).collect();
+            let text = |vals: &[Value]| format!("{}({})", f, vals.iter().map(as_expr).collect::<Vec<_>>().join(", "));
+            out.push(Case { program: text(&vals), bindings: vec![], key: format!("wide:{}:n={}", f, n), lenient_err: false });
+            for k in positions(n) {
+                // one ill-typed argument at position k
+                let mut v2 = vals.clone();
+                v2[k] = Value::Bool(true);
+                out.push(Case { program: text(&v2), bindings: vec![], key: format!("wide:{}:n={}:ill-typed@{}", f, n, k), lenient_err: false });
+                // the deciding argument at position k (extreme for min / max, zero for mul)
+                let mut v3 = vals.clone();
+                v3[k] = match f {
+                    "min" => d("-1000"),
+                    "max" => d("1000"),
+                    "mul" => d("0"),
+                    _ => d("1000000"),
+                };
+                out.push(Case { program: text(&v3), bindings: vec![], key: format!("wide:{}:n={}:deciding@{}", f, n, k), lenient_err: false });
+            }
+        }
+        for (op, base) in [("AND", true), ("OR", false)] {
+            let vals: Vec<Value> = (0..n).map(|_| Value::Bool(base)).collect();
+            let text = |vals: &[Value]| format!("{} [{}]", op, vals.iter().map(as_expr).collect::<Vec<_>>().join(", "));
+            out.push(Case { program: text(&vals), bindings: vec![], key: format!("wide:{}:n={}", op, n), lenient_err: false });
+            for k in positions(n) {
+                let mut v2 = vals.clone();
+                v2[k] = Value::Bool(!base);
+                out.push(Case { program: text(&v2), bindings: vec![], key: format!("wide:{}:n={}:deciding@{}", op, n, k), lenient_err: false });
+                let mut v3 = vals.clone();
+                v3[k] = d("1");
+                out.push(Case { program: text(&v3), bindings: vec![], key: format!("wide:{}:n={}:ill-typed@{}", op, n, k), lenient_err: false });
+                // the same list bound as a variable
+                out.push(Case { program: format!("{} l", op), bindings: vec![("l".into(), Value::List(v2.clone()))], key: format!("wide:{}:n={}:variable:deciding@{}", op, n, k), lenient_err: false });
+            }
+        }
+        // construction and membership
+        let items: Vec<Value> = (0..n).map(|i| d(&i.to_string())).collect();
+        let lit = format!("[{}]", items.iter().map(as_expr).collect::<Vec<_>>().join(", "));
+        out.push(Case { program: format!("{} == l", lit), bindings: vec![("l".into(), Value::List(items.clone()))], key: format!("wide:list-construction:n={}", n), lenient_err: false });
+        out.push(Case { program: lit.clone(), bindings: vec![], key: format!("wide:list-value:n={}", n), lenient_err: false });
+        let entries: Vec<(Value, Value)> = (0..n).map(|i| (d(&i.to_string()), d(&(i * i).to_string()))).collect();
+        let mlit = format!("{{{}}}", entries.iter().map(|(k, v)| format!("{} : {}", as_expr(k), as_expr(v))).collect::<Vec<_>>().join(", "));
+        out.push(Case { program: mlit, bindings: vec![], key: format!("wide:map-value:n={}", n), lenient_err: false });
+        for k in positions(n) {
+            out.push(Case { program: format!("{} in {}", k, lit), bindings: vec![], key: format!("wide:in:n={}:member@{}", n, k), lenient_err: false });
+            out.push(Case { program: format!("x in l"), bindings: vec![("x".into(), d(&k.to_string())), ("l".into(), Value::List(items.clone()))], key: format!("wide:in:n={}:variable:member@{}", n, k), lenient_err: false });
+        }
+        out.push(Case { program: format!("{} in {}", n, lit), bindings: vec![], key: format!("wide:in:n={}:absent", n), lenient_err: false });
+        out.push(Case { program: format!("{}.0 in {}", n - 1, lit), bindings: vec![], key: format!("wide:in:n={}:equal-other-scale", n), lenient_err: false });
+        // string tests on long strings: the affix at the very start / end, and one character off
+        let long = format!("{}b", "a".repeat(n));
+        for (prog, what) in [
+            (format!("'{}' endWith 'ab'", long), "endWith:true"),
+            (format!("'{}' endWith 'bb'", long), "endWith:false"),
+            (format!("'{}' beginWith '{}'", long, "a".repeat(n)), "beginWith:true"),
+            (format!("'{}' beginWith '{}b'", long, "a".repeat(n - 1)), "beginWith:false"),
+            (format!("'{}' endWith '{}'", long, long), "endWith:whole"),
+            (format!("'{}' beginWith 'x{}'", long, long), "beginWith:longer"),
+            (format!("'{}' == '{}'", long, long), "eq:true"),
+            (format!("'{}' == '{}c'", long, "a".repeat(n)), "eq:last-differs"),
+            (format!("'{}' + '{}'", long, long), "concat"),
+        ] {
+            out.push(Case { program: prog, bindings: vec![], key: format!("wide:string:{}:n={}", what, n), lenient_err: false });
         }
     }
     out
